@@ -78,7 +78,7 @@ fn main() {
             std::fs::create_dir_all(&dir).map_err(|e| e.to_string())?;
             let mut cfg = HCfg::default();
             cfg.ks = N;
-            cfg.validate_regen = c.index == "regenval";
+            cfg.validate_regen = c.index.ends_with("val");
             let mut d = Driver::<N>::new(cfg, dir.clone(), 9);
             d.open(false).await?;
             // blob 0: another blob with one record (key 9)
@@ -97,7 +97,7 @@ fn main() {
                 offs.push(off);
                 off += rec_len(i);
             }
-            if c.index == "disk" {
+            if c.index == "disk" || c.index.starts_with("reopen") {
                 d.storage.as_ref().unwrap().try_close_active_blob().await.map_err(|e| format!("{e:#}"))?;
                 wait_quiescent(true, QUIESCE_DEADLINE).await?;
             }
@@ -108,7 +108,9 @@ fn main() {
             let dlen = data_len(target) as u64;
             let mut ps: Vec<u64> = if dense { (0..dlen).collect() } else { vec![0, dlen / 2, dlen - 1] };
             ps.dedup();
-            let restart = c.index.starts_with("regen");
+            let restart = c.index.starts_with("regen") || c.index.starts_with("reopen");
+            // "reopen": the index files written by the first session are kept and are valid
+            let keep_index = c.index.starts_with("reopen");
             if restart { d.shutdown(true).await?; }
             let mut mm = Vec::new();
             for p in ps {
@@ -124,10 +126,13 @@ fn main() {
                         let work = dir.parent().unwrap().join("w");
                         let _ = std::fs::remove_dir_all(&work);
                         std::fs::create_dir_all(&work).unwrap();
-                        for (id, is_index, pth) in list_files(&dir) { if !is_index { std::fs::copy(&pth, blob_path(&work, id)).unwrap(); } }
+                        for (id, is_index, pth) in list_files(&dir) {
+                            if !is_index { std::fs::copy(&pth, blob_path(&work, id)).unwrap(); }
+                            else if keep_index { std::fs::copy(&pth, index_path(&work, id)).unwrap(); }
+                        }
                         let mut cfg2 = HCfg::default();
                         cfg2.ks = N;
-                        cfg2.validate_regen = c.index == "regenval";
+                        cfg2.validate_regen = c.index.ends_with("val");
                         let mut d2 = Driver::<N>::new(cfg2, work.clone(), 9);
                         match d2.open(false).await {
                             Ok(()) => {
